@@ -222,3 +222,19 @@ Proof.
   inversion Hpos as [|? ? Hc Hrest]; subst.
   simpl. f_equal. apply fold_left_bincount; assumption.
 Qed.
+
+(* ---------- streamable without reduction: a row-local function mapped over the chunks ---------- *)
+Theorem streamable_map_chunked {A B} (f : list A -> list B) :
+  f [] = [] -> (forall a b, f (a ++ b) = f a ++ f b) ->
+  forall cs, concat (stream_map f cs) = f (concat cs).
+Proof.
+  intros Hnil Happ cs. unfold stream_map. induction cs as [|c cs IH]; simpl; [symmetry; exact Hnil|].
+  rewrite IH, Happ. reflexivity.
+Qed.
+Theorem streamable_rows_chunked {A B} (g : A -> B) (cs : list (list A)) :
+  concat (stream_map (map g) cs) = map g (concat cs) /\ map (@length B) (stream_map (map g) cs) = map (@length A) cs.
+Proof.
+  split.
+  - apply streamable_map_chunked; [reflexivity|intros; apply map_app].
+  - unfold stream_map. rewrite map_map. apply map_ext. intros c. apply map_length.
+Qed.
